@@ -12,6 +12,12 @@ A case is a *history* of programs evaluated one after the other in one process:
     tree   = ["lit", val] | ["v", i] | ["call", f, [args]] | ["meth", f, recv, [args]] | ["or", a, b] | ["and", a, b]
            | ["not", a] | ["cond", c, x, y] | ["add", a, b] | ["lt", a, b] | ["all", src, body] | ["exists", src, body]
            | ["map", src, body]                       (macro variables are de Bruijn indices)
+           | ["cv", name, val]                        (round 3: the context variable `name`, bound to `val` for the evaluation;
+                                                       to the model and to the reference it IS the literal `val`)
+    round 3, per program:  "mvars": [names]  the macro variable at nesting depth d is called mvars[d] (default x<d>),
+                           "ctx": [[name, val]…]  further context variables that are bound but not mentioned;
+                per case:  "share_ast": True  programs with the same source text are built from ONE AST object
+                           (`Environment.compile()` once, `Environment.program()` many times)
     val    = ["i", n] | ["b", bool] | ["L", [val…]]
 
 The implementation's outcome for one program is `<value> | name(arg,…);name(…)` — the canonical result and the
@@ -310,25 +316,49 @@ def cel_val(v) -> str:
     return "[" + ", ".join(cel_val(x) for x in v[1]) + "]"
 
 
-def to_cel(t, depth: int = 0) -> str:
+def mvar(depth: int, mv=None) -> str:
+    """the name of the macro variable bound at nesting depth `depth`"""
+    return mv[depth] if mv and depth < len(mv) else f"x{depth}"
+
+
+def to_cel(t, depth: int = 0, mv=None) -> str:
     k = t[0]
     if k == "lit":
         return cel_val(t[1])
+    if k == "cv":
+        return t[1]
     if k == "v":
-        return f"x{depth - 1 - t[1]}"
+        return mvar(depth - 1 - t[1], mv)
     if k == "call":
-        return f"{t[1]}(" + ", ".join(to_cel(a, depth) for a in t[2]) + ")"
+        return f"{t[1]}(" + ", ".join(to_cel(a, depth, mv) for a in t[2]) + ")"
     if k == "meth":
-        return f"({to_cel(t[2], depth)}).{t[1]}(" + ", ".join(to_cel(a, depth) for a in t[3]) + ")"
+        return f"({to_cel(t[2], depth, mv)}).{t[1]}(" + ", ".join(to_cel(a, depth, mv) for a in t[3]) + ")"
     if k in ("or", "and", "add", "lt"):
         op = {"or": "||", "and": "&&", "add": "+", "lt": "<"}[k]
-        return f"({to_cel(t[1], depth)} {op} {to_cel(t[2], depth)})"
+        return f"({to_cel(t[1], depth, mv)} {op} {to_cel(t[2], depth, mv)})"
     if k == "not":
-        return f"!({to_cel(t[1], depth)})"
+        return f"!({to_cel(t[1], depth, mv)})"
     if k == "cond":
-        return f"({to_cel(t[1], depth)} ? {to_cel(t[2], depth)} : {to_cel(t[3], depth)})"
+        return f"({to_cel(t[1], depth, mv)} ? {to_cel(t[2], depth, mv)} : {to_cel(t[3], depth, mv)})"
     name = {"all": "all", "exists": "exists", "map": "map"}[k]
-    return f"({to_cel(t[1], depth)}).{name}(x{depth}, {to_cel(t[2], depth + 1)})"
+    return f"({to_cel(t[1], depth, mv)}).{name}({mvar(depth, mv)}, {to_cel(t[2], depth + 1, mv)})"
+
+
+def prog_src(p) -> str:
+    """the CEL text of a program"""
+    return to_cel(p["expr"], 0, p.get("mvars"))
+
+
+def prog_ctx(p) -> Dict[str, Any]:
+    """name -> val: the context variables of a program (those its expression mentions and those that are only bound)"""
+    ctx: Dict[str, Any] = {n: v for n, v in p.get("ctx", [])}
+
+    def visit(n):
+        if n[0] == "cv":
+            ctx[n[1]] = n[2]
+        return n
+    map_tree(p["expr"], visit)
+    return ctx
 
 
 def lean_val(v) -> str:
@@ -343,6 +373,8 @@ def to_lean(t) -> str:
     k = t[0]
     if k == "lit":
         return "lit " + lean_val(t[1])
+    if k == "cv":                              # a context variable is its value: variables and functions are separate namespaces
+        return "lit " + lean_val(t[2])
     if k == "v":
         return f"v{t[1]}"
     if k == "call":
@@ -477,6 +509,8 @@ class Ref:
         k = t[0]
         if k == "lit":
             return tuple_val(t[1]), []
+        if k == "cv":
+            return tuple_val(t[2]), []
         if k == "v":
             return env[t[1]], []
         if k in ("call", "meth"):
@@ -660,8 +694,11 @@ def check_prog(prog, out: str, eager_ok: bool = False, lenient: Tuple[str, ...] 
     ref = reference(prog)
     if ref is None:
         return None
-    src = to_cel(prog["expr"])
+    src = prog_src(prog)
+    ctx = prog_ctx(prog)
     who = f"runner {prog['runner']} style {prog['style']} kinds {sorted({s['ckind'] for s in prog['fns']})}: {src!r}"
+    if ctx:
+        who += " with variables {" + ", ".join(f"{n}: {cel_val(v)}" for n, v in sorted(ctx.items())) + "}"
     if out.startswith("EXC "):
         return f"{who}: {out.split(' | ')[0]} escaped; the property requires " + (ref["value"] or "a value or an evaluation error")
     val, calls = parse_out(out)
@@ -827,8 +864,9 @@ def specs_for(rng: random.Random, table, style: str, kinds: List[str]) -> List[D
     return out
 
 
-def both_runners(kind, style, fns, expr, rel=None, bind=False):
-    return [{"kind": kind, "progs": [{"runner": r, "style": style, "fns": fns, "expr": expr, "bind": bind}], "rel": rel} for r in ("I", "C")]
+def both_runners(kind, style, fns, expr, rel=None, bind=False, extra=None):
+    return [{"kind": kind, "progs": [dict({"runner": r, "style": style, "fns": fns, "expr": expr, "bind": bind}, **(extra or {}))], "rel": rel}
+            for r in ("I", "C")]
 
 
 NODE1 = {"or": 2, "and": 2, "not": 1, "cond": 3, "add": 2, "lt": 2, "all": 2, "exists": 2, "map": 2}
@@ -837,7 +875,7 @@ NODE1 = {"or": 2, "and": 2, "not": 1, "cond": 3, "add": 2, "lt": 2, "all": 2, "e
 def map_tree(t, f):
     """rebuild the tree bottom-up, applying f to every node"""
     k = t[0]
-    if k in ("lit", "v"):
+    if k in ("lit", "v", "cv"):
         return f(t)
     if k == "call":
         return f(["call", t[1], [map_tree(a, f) for a in t[2]]])
@@ -959,11 +997,131 @@ def repeat_cases() -> List[Dict[str, Any]]:
                 e = ["add", F1, ["call", "f", [I(1), I(2)]]]
                 # build_first: all five programs are built before the first one is evaluated (closures only: the
                 # module-level defs of the harness share one dispatch table per module)
-                cases.append({"kind": "rebind", "rel": None, "share_env": share, "build_first": first, "progs": [
+                cases.append({"kind": "rebind", "rel": None, "share_env": share, "build_first": first, "share_ast": (r1 == r2) != (st1 == st2), "progs": [
                     {"runner": r1, "style": st1, "fns": fa, "expr": e}, {"runner": r2, "style": st2, "fns": fb, "expr": e},
                     {"runner": r2, "style": st2, "fns": fb, "expr": ["add", ["call", "h", [I(1)]], I(1)]},      # h is unbound now
                     {"runner": r1, "style": "N", "fns": [], "expr": F1},                                          # … and so is f
                     {"runner": r1, "style": st1, "fns": fa, "expr": e}]})
+    return cases
+
+
+def CV(name, val):
+    return ["cv", name, val]
+
+
+def name_cases() -> List[Dict[str, Any]]:
+    """FUNCTIONS AND VARIABLES ARE SEPARATE NAMESPACES (round 3).  What a call `f(a)` / `a.f()` applies is the function the program
+    was built with, whatever else carries the name `f` while the call is evaluated: a context variable (mentioned in the
+    expression — even as the argument of that very call — or only bound), the bind variable of an enclosing macro, a variable
+    named like an overridden or a plain built-in, a variable named like a function that is NOT bound (still an error).
+    To the model and to the reference a variable is its value, so the prescribed outcome is that of the expression with
+    the values written out."""
+    cases = []
+    LL = ["L", [["i", 1], ["i", 2]]]
+    for bname, beh in {"ok": ["sum", 100], "errv": ["errv"], "ve": ["raise", "ValueError"]}.items():
+        for ck, style in (("nested", "D"), ("mod", "L"), ("obj", "D"), ("lambda", "D"), ("ev", "D"), ("main", "L")):
+            fns = [{"key": "f", "ckind": ck, "beh": beh, "pyname": "f"},
+                   {"key": "g", "ckind": "lambda", "beh": ["sum", 7], "pyname": "g"},
+                   {"key": "p", "ckind": "nested", "beh": ["pos"], "pyname": "p"}]
+            over = fns + [{"key": "size", "ckind": "nested", "beh": ["sum", 77], "pyname": "size"}]
+            f7, g2, pT, sz = CV("f", ["i", 7]), CV("g", ["i", 2]), CV("p", ["b", True]), CV("size", LL)
+            F1 = ["call", "f", [I(1)]]
+            shapes = [
+                # (functions, expression, macro variable names, variables that are only bound)
+                (fns, ["call", "f", [f7]], None, []), (fns, ["meth", "f", f7, []], None, []), (fns, ["meth", "f", f7, [g2]], None, []),
+                (fns, ["call", "f", [g2, f7]], None, []), (fns, ["add", F1, f7], None, []), (fns, ["call", "g", [f7]], None, []),
+                (fns, F1, None, [["f", ["i", 7]]]), (fns, ["meth", "f", I(1), [I(2)]], None, [["f", ["b", True]]]),
+                (fns, ["meth", "g", F1, []], None, [["f", LL], ["g", ["i", 0]]]),
+                (over, ["call", "size", [sz]], None, []), (over, ["meth", "size", sz, []], None, []),
+                (fns, ["call", "size", [sz]], None, []), (fns, ["add", ["meth", "size", sz, []], F1], None, [["f", ["i", 1]]]),
+                (over, ["add", ["call", "size", [L(1, 2, 3)]], F1], None, [["size", ["i", 5]]]),
+                (fns, ["or", ["lt", I(1000), F1], ["lt", f7, I(50)]], None, []),            # the deciding operand hides an error of the call
+                (fns, ["or", pT, ["lt", ["call", "f", [f7]], I(0)]], None, []),
+                (fns, ["and", ["lt", ["call", "f", [f7]], I(1000)], ["call", "p", [pT]]], None, []),
+                (fns, ["cond", ["call", "p", [pT]], ["call", "f", [f7]], I(0)], None, []),
+                (fns, ["not", ["meth", "p", pT, []]], None, []),
+                (fns, ["call", "nosuch", [CV("nosuch", ["i", 1])]], None, []),               # a variable is no function
+                (fns, ["add", F1, ["call", "nosuch", [I(1)]]], None, [["nosuch", ["i", 1]]]),
+                # the bind variable of a macro carries the name of the function its body calls
+                (fns, ["all", L(1, 2), ["lt", ["call", "f", [["v", 0]]], I(1000)]], ["f"], []),
+                (fns, ["exists", L(1, 2), ["lt", ["meth", "f", ["v", 0], [g2]], I(0)]], ["f"], []),
+                (fns, ["all", L(1, 2), ["call", "p", [["v", 0]]]], ["p"], []),
+                (fns, ["all", L(1, 2), ["exists", L(7), ["lt", ["call", "f", [["v", 0], ["v", 1]]], I(0)]]], ["g", "f"], []),
+                (fns, ["all", L(1, 2), ["exists", L(7), ["lt", ["call", "g", [["v", 0], ["v", 1]]], I(0)]]], ["f", "g"], []),
+                (fns, ["all", L(1, 2), ["lt", ["call", "f", [I(5)]], I(1000)]], ["f"], []),
+                (over, ["all", L(1, 2), ["lt", ["add", ["call", "size", [L(1)]], ["v", 0]], I(1000)]], ["size"], []),
+                (fns, ["all", L(1, 2), ["lt", ["add", ["meth", "size", L(1), []], ["v", 0]], I(1000)]], ["size"], []),
+            ]
+            if bname == "ok":
+                shapes += [(fns, ["map", L(1, 2), ["call", "f", [["v", 0]]]], ["f"], []),
+                           (fns, ["map", L(1, 2), ["meth", "f", ["v", 0], [["v", 0]]]], ["f"], []),
+                           (fns, ["map", L(1, 2), ["call", "g", [["v", 0]]]], ["f"], [["g", ["i", 1]]]),
+                           (fns, ["map", L(4, 5), ["add", ["call", "f", [["v", 0]]], f7]], ["g"], []),
+                           (over, ["map", L(1, 2), ["call", "size", [L(1, 2, 3)]]], ["size"], [])]
+            for i, (fs, e, mv, ctx) in enumerate(shapes):
+                extra: Dict[str, Any] = {}
+                if mv:
+                    extra["mvars"] = mv
+                if ctx:
+                    extra["ctx"] = ctx
+                cases += both_runners("names", style, fs, e, bind=(i % 4 == 0), extra=extra)
+    return cases
+
+
+def collide(rng: random.Random, e, table):
+    """randomly turn literals of `e` into context variables and name its macro variables — after the program's FUNCTIONS
+    (and after an unbound function) more often than not.  -> (expression, per-program extras)"""
+    names = list(table) + ["nosuch", "size", "a"]
+    mv = rng.sample(names, rng.choice([0, 1, 2, 3]))          # distinct: an inner macro variable must not hide an outer one
+    free = [n for n in names if n not in mv]
+    bound: Dict[str, Any] = {}
+
+    def visit(n):
+        if n[0] != "lit" or rng.random() < 0.5 or not free:
+            return n
+        name = rng.choice(free)
+        if bound.setdefault(name, n[1]) != n[1]:
+            return n
+        return CV(name, n[1])
+    e2 = map_tree(e, visit)
+    extra: Dict[str, Any] = {}
+    if mv:
+        extra["mvars"] = mv
+    spare = [n for n in free if n not in bound]
+    if spare and rng.random() < 0.4:
+        extra["ctx"] = [[rng.choice(spare), rng.choice([["i", 3], ["b", True], ["L", [["i", 1]]]])]]
+    return e2, extra
+
+
+def ast_cases() -> List[Dict[str, Any]]:
+    """"FOR THIS PROGRAM ONLY", when ONE AST is packaged into several programs (round 3): `Environment.compile()` once,
+    `Environment.program(ast, functions=…)` with another function set each time — nothing, an override of a built-in, a name
+    that was unbound before, another function under the same name, nothing again — in every order, on one runner or
+    alternating, built first or built when needed.  Every program must apply the functions IT was built with."""
+    cases = []
+    sz1 = [{"key": "size", "ckind": "nested", "beh": ["sum", 77], "pyname": "size"}]
+    sz2 = [{"key": "size", "ckind": "obj", "beh": ["sum", 500], "pyname": "size"}]
+    fa = [{"key": "f", "ckind": "nested", "beh": ["sum", 100], "pyname": "f"}, {"key": "p", "ckind": "lambda", "beh": ["pos"], "pyname": "p"}]
+    fb = [{"key": "f", "ckind": "mod", "beh": ["sum", 7], "pyname": "f"}]
+    fe = [{"key": "f", "ckind": "lambda", "beh": ["errv"], "pyname": "f"}]
+    e_size = ["add", ["call", "size", [L(1, 2)]], ["meth", "size", L(1, 2, 3), []]]
+    e_f = ["add", ["call", "f", [I(1)]], ["meth", "f", I(1), [I(2)]]]
+    e_or = ["or", ["lt", ["call", "f", [I(1)]], I(0)], ["call", "p", [I(1)]]]
+    e_mac = ["all", L(1, 2), ["lt", ["add", ["call", "f", [["v", 0]]], ["meth", "size", L(1), []]], I(1000)]]
+    seqs = [
+        (e_size, [("N", []), ("D", sz1), ("N", []), ("L", sz2), ("N", [])]),              # plain first, overrides later
+        (e_size, [("D", sz1), ("N", []), ("D", sz2), ("L", sz1), ("N", [])]),              # override first
+        (e_f, [("N", []), ("D", fa), ("D", fb), ("N", []), ("L", fa)]),                    # unbound first ("dry run"), bound later
+        (e_f, [("L", fa), ("N", []), ("D", fb), ("D", fe), ("D", fa)]),
+        (e_or, [("N", []), ("D", fa), ("D", fb), ("D", fe + fa[1:]), ("N", [])]),
+        (e_mac, [("N", []), ("D", fa + sz1), ("D", fb), ("L", fa), ("L", sz1 + fb)]),
+    ]
+    i = 0
+    for (e, seq), runners, first in itertools.product(seqs, ("IIIII", "CCCCC", "ICICI", "CICIC"), (False, True)):
+        i += 1
+        cases.append({"kind": "one_ast", "rel": None, "share_ast": True, "share_env": i % 3 != 0, "build_first": first,
+                      "progs": [{"runner": r, "style": st, "fns": fns, "expr": e, "bind": (i + j) % 2 == 0}
+                                for j, (r, (st, fns)) in enumerate(zip(runners, seq))]})
     return cases
 
 
@@ -987,6 +1145,9 @@ class C14(Prop):
             "round 2: the same call reached again (two/three sites, both syntaxes, 1 vs true, other function with equal arguments, unhashable arguments, macro bodies over equal "
             "elements) x behaviour x kind x runner; one program object evaluated three times; re-entrant evaluation (a host function evaluates another program); look-alike "
             "callables (functools.wraps of a built-in / of a visible function, object equal to everything, def with a built-in's module/qualname); random expressions re-use earlier call sub-trees. "
+            "round 3: variables and macro bind variables that carry the NAME of a called function (context variable mentioned — also as the argument of that call — or only bound; "
+            "bind variable of an enclosing macro; names of overridden / plain built-ins / unbound functions), systematically and in a third of the random programs; "
+            "ONE AST packaged into several programs with different function sets (nothing / override / unbound-then-bound / other function, every order, one runner or alternating, built first or on demand). "
             "non-trivial = at least one host function was applied AND (an error occurred, or the call sits under an operator/macro, or the callable is not a plain module-level def)")
 
     def setup(self):
@@ -1002,7 +1163,14 @@ class C14(Prop):
             sc = [c for c in sc if rng2.random() < 0.35]
         cases += sc
         cases += repeat_cases()
+        nc = name_cases()
+        if quick:
+            rng3 = random.Random(rng.random())
+            nc = [c for c in nc if rng3.random() < 0.4]
+        cases += nc
+        cases += ast_cases()
         n = 260 if quick else 5000
+        self_ints = POOL_INT + ["size", "k"]
         for _ in range(n):
             table = random_table(rng)
             style = rng.choice(["L", "D", "D"])
@@ -1011,26 +1179,46 @@ class C14(Prop):
             fns = specs_for(rng, table, style, kinds)
             g = Gen(rng, table)
             e = g.bool_(rng.randint(1, 4), 0) if rng.random() < 0.5 else g.int_(rng.randint(1, 4), 0)
+            # round 3: in a third of the programs variables / macro variables carry the names of the functions
+            e, nm = collide(rng, e, table) if rng.random() < 0.34 else (e, {})
             r = rng.random()
-            if r < 0.55:
-                cases += both_runners("random", style, fns, e, bind=rng.random() < 0.5)
-            elif r < 0.75:      # function syntax vs method syntax
+            if r < 0.5:
+                cases += both_runners("random", style, fns, e, bind=rng.random() < 0.5, extra=nm)
+            elif r < 0.68:      # function syntax vs method syntax
                 for rn in ("I", "C"):
                     cases.append({"kind": "syntax", "rel": "same", "progs": [
-                        {"runner": rn, "style": style, "fns": fns, "expr": to_function(e)},
-                        {"runner": rn, "style": style, "fns": fns, "expr": to_method(e)}]})
-            elif r < 0.9:       # list vs dict
+                        dict({"runner": rn, "style": style, "fns": fns, "expr": to_function(e)}, **nm),
+                        dict({"runner": rn, "style": style, "fns": fns, "expr": to_method(e)}, **nm)]})
+            elif r < 0.8:       # list vs dict
                 fl = [dict(s, pyname=s["key"], ckind=(s["ckind"] if s["ckind"] not in DICT_ONLY else "lambda")) for s in fns]
+                sa = rng.random() < 0.5
                 for rn in ("I", "C"):
-                    cases.append({"kind": "binding", "rel": "same", "progs": [
-                        {"runner": rn, "style": "L", "fns": fl, "expr": e}, {"runner": rn, "style": "D", "fns": fl, "expr": e}]})
+                    cases.append({"kind": "binding", "rel": "same", "share_ast": sa, "progs": [
+                        dict({"runner": rn, "style": "L", "fns": fl, "expr": e}, **nm), dict({"runner": rn, "style": "D", "fns": fl, "expr": e}, **nm)]})
+            elif r < 0.88 and "contains" not in table:
+                # round 3: ONE AST of a random expression packaged with nothing / the functions / some of them / others.
+                # (not with an overridden `contains`: in the programs WITHOUT the override the BUILT-IN contains would get the error
+                #  values of unbound calls, and the transpiled `contains([], <error value>)` is false — strictness of built-ins in
+                #  error values is not C14's, cf. D43)
+                bf = rng.random() < 0.4       # built first: closures only (the module-level defs of the harness share one dispatch table)
+                fl = [dict(s, pyname=s["key"], ckind=(s["ckind"] if s["ckind"] not in DICT_ONLY + (("mod", "main", "ev") if bf else ()) else "nested"))
+                      for s in fns]
+                rng.shuffle(fl)
+                part = fl[:max(1, len(fl) // 2)]
+                other = [dict(s, beh=rng.choice(INT_BEHS[:3] if s["key"] in self_ints else BOOL_BEHS[:3]))
+                         for s in fl if s["key"] in self_ints or s["key"] in POOL_BOOL]
+                seq = [("N", []), (style, fl), ("D", part), ("D", other), ("N", []), ("L", fl)]
+                seq = [seq[0]] + rng.sample(seq[1:], len(seq) - 1) if rng.random() < 0.7 else rng.sample(seq, len(seq))
+                for rs in ("I" * 6, "C" * 6, "".join(rng.choice("IC") for _ in range(6))):
+                    cases.append({"kind": "repack", "rel": None, "share_ast": True, "share_env": rng.random() < 0.6, "build_first": bf,
+                                  "progs": [dict({"runner": rn, "style": st, "fns": fs, "expr": e}, **nm) for rn, (st, fs) in zip(rs, seq)]})
             else:               # an override in one program must not leak into the next ones
                 st1 = rng.choice("LD")
                 shadow = [{"key": "size", "ckind": rng.choice(NAMED_KINDS[:-1] if st1 == "L" else CKINDS[:-1]), "beh": ["sum", 77], "pyname": "size"},
                           {"key": "contains", "ckind": rng.choice(["nested", "lambda", "mod"]), "beh": ["const", ["b", False]], "pyname": "contains"}]
                 probe = ["add", ["call", "size", [L(1, 2)]], ["cond", ["meth", "contains", L(1, 2), [I(2)]], I(10), I(20)]]
                 for r1, r2 in itertools.product("IC", "IC"):
-                    cases.append({"kind": "history", "rel": None, "share_env": rng.random() < 0.6, "progs": [
+                    cases.append({"kind": "history", "rel": None, "share_env": rng.random() < 0.6, "share_ast": rng.random() < 0.5, "progs": [
                         {"runner": r1, "style": st1, "fns": shadow + fns, "expr": probe},
                         {"runner": r2, "style": "N", "fns": [], "expr": probe},
                         {"runner": r2, "style": style, "fns": fns, "expr": e},
@@ -1087,7 +1275,15 @@ class C14(Prop):
                 env = envs.get(p["runner"]) or envs.setdefault(p["runner"], celpy.Environment(runner_class=celrun.RUNNERS[p["runner"]]))
             else:
                 env = celpy.Environment(runner_class=celrun.RUNNERS[p["runner"]])
-            ast = env.compile(to_cel(p["expr"]))
+            src = prog_src(p)
+            if self._asts is not None:
+                # "compile once, package the Expression into several programs": ONE AST object per source text of the history
+                # (parsed by a CompiledRunner Environment when a transpiled program takes part: its tree class serves both runners)
+                if src not in self._asts:
+                    self._asts[src] = (self._ast_env or env).compile(src)
+                ast = self._asts[src]
+            else:
+                ast = env.compile(src)
             return env.program(ast, functions=functions), None
         except Exception as ex:  # noqa
             return None, self._exc(ex)
@@ -1100,7 +1296,10 @@ class C14(Prop):
         try:
             try:
                 # with bindings the runners work on a *clone* of the activation (Activation.clone copies the function chain)
-                v = prog.evaluate({"zz": celpy.celtypes.IntType(1)} if p.get("bind") else {})
+                ctx = {n: _py_val(v) for n, v in prog_ctx(p).items()}
+                if p.get("bind"):
+                    ctx["zz"] = celpy.celtypes.IntType(1)
+                v = prog.evaluate(ctx)
                 val = celrun.canon(v)
             except CELEvalError:
                 val = "err"
@@ -1120,10 +1319,17 @@ class C14(Prop):
         return self.eval_prog(self._last, p)
 
     _last = None
+    _asts: Optional[Dict[str, Any]] = None
+    _ast_env = None
 
     def impl(self, c):
+        import celpy
+        from .. import celrun
         envs = {} if c.get("share_env") else None
         self._last = None
+        self._asts = {} if c.get("share_ast") else None
+        self._ast_env = (celpy.Environment(runner_class=celrun.RUNNERS["C"])
+                         if c.get("share_ast") and any(p["runner"] == "C" for p in c["progs"]) else None)
         if c.get("build_first"):
             # an application that builds all its programs at start-up and evaluates them later: every program keeps ITS functions
             REC.clear()
@@ -1154,15 +1360,17 @@ class C14(Prop):
         outs = out.split(" ## ")
         if len(outs) != len(c["progs"]):
             return f"harness: {len(outs)} outcomes for {len(c['progs'])} programs"
-        for p, o in zip(c["progs"], outs):
+        for i, (p, o) in enumerate(zip(c["progs"], outs)):
             msg = check_prog(p, o)
             if msg:
+                if len(outs) > 1:
+                    msg = f"program {i + 1} of {len(outs)}" + (" (the programs of one source text are built from ONE AST object)" if c.get("share_ast") else "") + ": " + msg
                 return msg
         if c.get("rel") == "same" and all(reference(p) is not None for p in c["progs"]):
             if len(set(outs)) != 1:
                 what = {"syntax": "function-call and method-call syntax", "binding": "list and dict binding"}.get(c["kind"], "the variants")
-                return (f"{what} disagree on runner {c['progs'][0]['runner']}: {to_cel(c['progs'][0]['expr'])!r} -> {outs[0]!r} but "
-                        f"{to_cel(c['progs'][1]['expr'])!r} -> {outs[1]!r}")
+                return (f"{what} disagree on runner {c['progs'][0]['runner']}: {prog_src(c['progs'][0])!r} -> {outs[0]!r} but "
+                        f"{prog_src(c['progs'][1])!r} -> {outs[1]!r}")
         return None
 
     def nontrivial(self, c, out):
